@@ -17,7 +17,6 @@ def askJson : Ask → Json
   | .sha256 d => Json.mkObj [("ask", "sha256"), ("data", hex d)]
   | .hash id d => Json.mkObj [("ask", "hash"), ("hash", id), ("data", hex d)]
   | .clientData raw => Json.mkObj [("ask", "clientData"), ("raw", hex raw)]
-  | .urlHost s => Json.mkObj [("ask", "urlHost"), ("s", hex s)]
   | .sigVerify s h k msg sig =>
     Json.mkObj [("ask", "sigVerify"), ("scheme", schemeStr s), ("hash", h), ("key", keyMatJson k), ("msg", hex msg), ("sig", hex sig)]
   | .x509Parse der => Json.mkObj [("ask", "x509Parse"), ("der", hex der)]
@@ -74,7 +73,7 @@ def parseSans (j : Json) : Except String (List Tpm.SanExt) := do
 def parseResp (q : Ask) (j : Json) : Except String Resp := do
   if j.isNull then return .none
   match q with
-  | .sha256 _ | .hash _ _ | .urlHost _ | .jwsChain .. | .jwsClaims .. =>
+  | .sha256 _ | .hash _ _ | .jwsChain .. | .jwsClaims .. =>
     return .bytes (← getHex j "bytes")
   | .jwsHeaders _ => return .nat (← getNat j "nat")
   | .clientData _ => return .clientData ⟨← getHex j "type", ← getHex j "challenge", ← getHex j "origin"⟩
